@@ -238,9 +238,47 @@ func (c *crossChecker) check(pattern string, paths []string) []string {
 
 // ---------- pattern generator ----------
 
+const nForms = 11
+
 // genPatterns draws n patterns of the supported forms. paths = pointer paths of
 // the commit the scenario works on (used for exact-file / basename forms).
-func genPatterns(r *rand.Rand, n int, paths []string) []pat {
+// force >= 0 fixes the form of the first pattern (rotated by the caller so that
+// every form occurs in every context of a run). A candidate that matches none
+// of paths is redrawn a few times: patterns that split the path set are the
+// discriminating ones.
+func genPatterns(r *rand.Rand, n int, paths []string, force int) []pat {
+	var out []pat
+	for len(out) < n {
+		form := r.Intn(nForms)
+		if len(out) == 0 && force >= 0 {
+			form = force % nForms
+		}
+		var p pat
+		for try := 0; try < 6; try++ {
+			p = genPattern(r, form, paths)
+			if p.Text == "" {
+				continue
+			}
+			hit := false
+			for _, f := range paths {
+				if matchGI(p.Text, f) {
+					hit = true
+					break
+				}
+			}
+			if hit || len(paths) == 0 {
+				break
+			}
+		}
+		if p.Text == "" {
+			p = pat{"*.bin", "glob-basename"}
+		}
+		out = append(out, p)
+	}
+	return out
+}
+
+func genPattern(r *rand.Rand, form int, paths []string) pat {
 	dirset := map[string]bool{}
 	for _, p := range paths {
 		d := p
@@ -262,58 +300,54 @@ func genPatterns(r *rand.Rand, n int, paths []string) []pat {
 		dirs = []string{"a"}
 	}
 	pick := func(l []string) string { return l[r.Intn(len(l))] }
-	var out []pat
-	for len(out) < n {
-		var p pat
-		switch r.Intn(11) {
-		case 0: // literal directory, trailing slash (the form in the man page examples is without)
-			p = pat{pick(dirs) + "/", "dir-slash"}
-		case 1:
-			p = pat{pick(dirs), "dir"}
-		case 2: // last component of a directory: matches at any level
+	var p pat
+	switch form {
+	case 0: // literal directory, trailing slash
+		p = pat{pick(dirs) + "/", "dir-slash"}
+	case 1: // the form of the man page examples
+		p = pat{pick(dirs), "dir"}
+	case 2: // last component of a directory: matches at any level
+		d := pick(dirs)
+		p = pat{d[strings.LastIndexByte(d, '/')+1:], "dir-basename"}
+	case 3:
+		p = pat{pick([]string{"*.bin", "*.dat", "f*.bin", "moved*", "copy*", "*1.bin", "f?.bin"}), "glob-basename"}
+	case 4:
+		p = pat{pick(dirs) + "/**", "dir-doublestar"}
+	case 5:
+		p = pat{"/" + pick(dirs), "rooted-dir"}
+	case 6:
+		p = pat{pick([]string{"/*.bin", "/f*.bin", "/*.dat"}), "rooted-glob"}
+	case 7:
+		if len(paths) == 0 {
+			return pat{}
+		}
+		f := pick(paths)
+		if strings.Contains(f, "/") {
+			p = pat{f, "exact-file"}
+		} else if r.Intn(2) == 0 {
+			p = pat{"/" + f, "rooted-file"}
+		} else {
+			p = pat{f, "file-basename"}
+		}
+	case 8:
+		if len(paths) == 0 {
+			return pat{}
+		}
+		f := pick(paths)
+		p = pat{f[strings.LastIndexByte(f, '/')+1:], "file-basename"}
+	case 9:
+		p = pat{pick(dirs) + "/" + pick([]string{"*.bin", "f*", "*.dat"}), "dir-glob"}
+	default:
+		if r.Intn(2) == 0 {
 			d := pick(dirs)
-			p = pat{d[strings.LastIndexByte(d, '/')+1:], "dir-basename"}
-		case 3:
-			p = pat{pick([]string{"*.bin", "*.dat", "f*.bin", "moved*", "copy*", "*1.bin", "f?.bin"}), "glob-basename"}
-		case 4:
-			p = pat{pick(dirs) + "/**", "dir-doublestar"}
-		case 5:
-			p = pat{"/" + pick(dirs), "rooted-dir"}
-		case 6:
-			p = pat{pick([]string{"/*.bin", "/f*.bin", "/*.dat"}), "rooted-glob"}
-		case 7:
-			if len(paths) == 0 {
-				continue
-			}
-			f := pick(paths)
-			if strings.Contains(f, "/") {
-				p = pat{f, "exact-file"}
-			} else if r.Intn(2) == 0 {
-				p = pat{"/" + f, "rooted-file"}
-			} else {
-				p = pat{f, "file-basename"}
-			}
-		case 8:
-			if len(paths) == 0 {
-				continue
-			}
-			f := pick(paths)
-			p = pat{f[strings.LastIndexByte(f, '/')+1:], "file-basename"}
-		case 9:
-			p = pat{pick(dirs) + "/" + pick([]string{"*.bin", "f*", "*.dat"}), "dir-glob"}
-		case 10:
-			if r.Intn(2) == 0 {
-				d := pick(dirs)
-				p = pat{"**/" + d[strings.LastIndexByte(d, '/')+1:], "leading-doublestar-dir"}
-			} else {
-				p = pat{"**/" + pick([]string{"*.bin", "f1.bin", "*.dat"}), "leading-doublestar-glob"}
-			}
+			p = pat{"**/" + d[strings.LastIndexByte(d, '/')+1:], "leading-doublestar-dir"}
+		} else {
+			p = pat{"**/" + pick([]string{"*.bin", "f1.bin", "*.dat"}), "leading-doublestar-glob"}
 		}
-		// comma is the list separator of lfs.fetchinclude / -I; never part of a pattern
-		if strings.Contains(p.Text, ",") || p.Text == "" {
-			continue
-		}
-		out = append(out, p)
 	}
-	return out
+	// comma is the list separator of lfs.fetchinclude / -I; never part of a pattern
+	if strings.Contains(p.Text, ",") {
+		return pat{}
+	}
+	return p
 }
